@@ -773,3 +773,163 @@ Proof.
         rewrite E3.
         refine (IH LF (shift + 7)%N (S cnt) (idx + 1) rest' _ _ _ _ _ _); try lia. symmetry. exact Hrest'.
 Qed.
+
+Section Switch.
+  Variable genv : goenv.
+  Variable call : gname -> list gvalue -> gres.
+  Variable lf : nat.
+  Definition sw_finish (r : stres) : stres :=
+    match r with
+    | SrBreak en' => SrNext en' | SrNext en' => SrNext en' | SrCont en' => SrCont en' | SrRet vs en' => SrRet vs en'
+    | SrPanic => SrPanic | SrFuel => SrFuel | SrStuck => SrStuck
+    end.
+
+  Lemma switch_int tag t x c body cs dflt en :
+    go_eval genv call en tag = ErOk (GvInt t x) -> ity_in t c = true ->
+    go_exec genv call lf (StSwitch tag (([ExConst c], body) :: cs) dflt) en =
+    if x =? c then sw_finish (exec_blk genv call lf body en) else go_exec genv call lf (StSwitch tag cs dflt) en.
+  Proof.
+    intros Ht Hc. cbn [go_exec]. rewrite Ht. cbn [go_lift go_eval go_bind bin_op]. unfold const_to. rewrite Hc.
+    cbn [go_bind is_cmp go_cmp]. destruct (x =? c); [|reflexivity]. unfold exec_blk. destruct (go_leave _ _); reflexivity.
+  Qed.
+  Lemma switch_dflt tag v d en :
+    go_eval genv call en tag = ErOk v ->
+    go_exec genv call lf (StSwitch tag [] (Some d)) en = sw_finish (exec_blk genv call lf d en).
+  Proof. intros Ht. cbn [go_exec]. rewrite Ht. cbn [go_lift]. unfold exec_blk. destruct (go_leave _ _); reflexivity. Qed.
+End Switch.
+
+(* ---- the epilogue of one iteration: if iNdEx < 0 {return 0, ErrInvalidLength}; if depth == 0 {return iNdEx, nil} *)
+Definition sk_post_rel (bs : list byte) (i : Z) (d : N) (r : stres) : Prop :=
+  if i <? 0 then is_err_ret bs r
+  else if (d =? 0)%N then is_ok_ret bs i r
+  else r = SrNext (sk_env bs i (Z.of_N d)).
+
+Lemma eqb_ofN_0 d : (Z.of_N d =? 0) = (d =? 0)%N.
+Proof. destruct d; reflexivity. Qed.
+
+Lemma sk_epilogue call lf bs wt wire i0 d0 i d :
+  sk_post_rel bs i d
+    (go_leave (sk_env bs i0 d0)
+       (go_block G call lf sk_epi
+          (("wireType"%gname, GvInt TInt wt) :: ("wire"%gname, GvInt TUint64 wire) :: sk_env bs i (Z.of_N d)))).
+Proof.
+  unfold sk_post_rel, sk_epi, sk_env. go.
+  destruct (i <? 0); go.
+  - rewrite G_invalid. go. eexists. eexists. split; reflexivity.
+  - rewrite eqb_ofN_0. destruct (d =? 0)%N; go.
+    + eexists. split; reflexivity.
+    + reflexivity.
+Qed.
+
+Lemma suffix_split (bs rest pre rest1 : list byte) i :
+  0 <= i -> rest = skipn (Z.to_nat i) bs -> rest = pre ++ rest1 -> i <= Z.of_nat (length bs) ->
+  let i1 := Z.of_nat (length bs) - Z.of_nat (length rest1) in
+  i1 = i + Z.of_nat (length pre) /\ rest1 = skipn (Z.to_nat i1) bs /\ 0 <= i1 <= Z.of_nat (length bs).
+Proof.
+  intros Hi Hr Hp Hle i1.
+  assert (Hl : length rest = (length bs - Z.to_nat i)%nat) by (rewrite Hr; apply skipn_length).
+  rewrite Hp, app_length in Hl.
+  assert (E : i1 = i + Z.of_nat (length pre)) by (unfold i1; lia).
+  split; [exact E|]. split; [|lia].
+  rewrite E. replace (Z.to_nat (i + Z.of_nat (length pre))) with (Z.to_nat i + length pre)%nat by lia.
+  rewrite <- skipn_skipn', <- Hr, Hp. rewrite skipn_app, skipn_all, Nat.sub_diag. reflexivity.
+Qed.
+
+Lemma land7_cases x : let w := N.land x 7 in (w = 0 \/ w = 1 \/ w = 2 \/ w = 3 \/ w = 4 \/ w = 5 \/ w = 6 \/ w = 7)%N.
+Proof.
+  cbv zeta. replace (N.land x 7) with (x mod 8)%N by (symmetry; apply (N.land_ones x 3)).
+  pose proof (N.mod_upper_bound x 8 ltac:(discriminate)). lia.
+Qed.
+Lemma wiretype_go raw : ity_norm TInt (Z.land (Z.of_N (u64 raw)) 7) = Z.of_N (N.land (u64 raw) 7).
+Proof.
+  change 7 with (Z.of_N 7). rewrite <- ofN_land. rewrite norm_int.
+  pose proof (land7_cases (u64 raw)) as H. cbv zeta in H. apply wrap64_id'. lia.
+Qed.
+
+Ltac gocbnz := cbn [Z.eqb Pos.eqb Z.of_N go_eval go_evals go_exec go_block go_exec_atom go_bind go_lift go_leave go_restore
+  lval_read lval_write lval_index op_assign go_get go_set str_eq gf_bytes_eqb gname_bytes Byte.eqb Byte.to_bits Bool.eqb andb orb negb
+  coerce definable assignable go_zero named_underlying
+  bin_op shift_op shl_z shr_z un_op conv int_arith const_arith is_cmp go_cmp ity_eqb ity_code ity_bits Nat.eqb is_nil_like go_field index_z
+  has_bytes has_const existsb lib_const lib_call lib_method fst snd length skipn Nat.sub app map intv].
+Ltac goz := repeat (gocbnz; progress nc); gocbnz.
+
+Definition sk_rel (bs : list byte) (s : step_res) (r : stres) : Prop :=
+  match s with SErr => is_err_ret bs r | SNext _ i d => sk_post_rel bs i d r end.
+
+Lemma sk_body_step call lf bs : Z.of_nat (length bs) + 8 < Z.of_N two63 -> (11 <= lf)%nat ->
+  forall idx depth rest,
+  0 <= idx < Z.of_nat (length bs) -> rest = skipn (Z.to_nat idx) bs -> Z.of_N depth <= idx ->
+  sk_rel bs (skip_step rest idx depth) (exec_blk G call lf sk_body (sk_env bs idx (Z.of_N depth))).
+Proof.
+  intros Hlen8 Hlf idx depth rest Hidx Hrest Hdep.
+  assert (Hlen : Z.of_nat (length bs) < Z.of_N two63) by lia.
+  unfold exec_blk, sk_body. unfold sk_env at 2. go.
+  unfold skip_varint_for at 1. rewrite exec_for. go.
+  pose proof (wire_loop call lf bs (Z.of_N depth) Hlen 10 lf 0%N 0%N 0%nat idx rest ltac:(lia) ltac:(lia) eq_refl ltac:(lia) Hrest ltac:(lia)) as HW.
+  cbv zeta in HW. unfold skip_step, dec_varint.
+  match goal with |- context [for_loop G call lf None ?p ?b lf ?en] =>
+    change (for_loop G call lf None p b lf en) with
+      (for_loop G call lf None sk_post (skip_guards ++ skip_accumulate "wire" TUint64) lf (w_env bs (Z.of_N 0) (Z.of_N (u64 0)) idx (Z.of_N depth))) end.
+  destruct (dec_varint_aux 10 0 0 0 rest) as [[[raw n] rest1]|] eqn:Ed.
+  2:{ destruct HW as (e & en & -> & Hfp). go. exists e, en. split; [reflexivity|exact Hfp]. }
+  destruct HW as (sh & ->). unfold w_env, sk_env. go.
+  apply dec_varint_aux_consumes in Ed. destruct Ed as (pre & Hpre & Hn & Hpl).
+  destruct (suffix_split bs rest pre rest1 idx ltac:(lia) Hrest Hpre ltac:(lia)) as (Hi1 & Hrest1 & Hi1r).
+  set (idx1 := Z.of_nat (length bs) - Z.of_nat (length rest1)) in *.
+  replace (idx + Z.of_nat n) with idx1 by lia.
+  rewrite wiretype_go. cbv zeta.
+  set (wt := N.land (u64 raw) 7).
+  pose proof (land7_cases (u64 raw)) as Hwt. cbv zeta in Hwt. fold wt in Hwt. clearbody wt.
+  change (Z.of_N two63) with 9223372036854775808 in *.
+  assert (Htag : forall k, go_eval G call
+           [("wireType"%gname, GvInt TInt k); ("wire"%gname, GvInt TUint64 (Z.of_N (u64 raw)));
+            ("depth"%gname, intv (Z.of_N depth)); ("iNdEx"%gname, intv idx1); ("l"%gname, intv (Z.of_nat (length bs)));
+            ("n"%gname, GvInt TInt 0); ("err"%gname, GvErr None); ("dAtA"%gname, GvBytes bs)] (ExVar "wireType") = ErOk (GvInt TInt k))
+    by (intro k; reflexivity).
+  destruct Hwt as [->|[->|[->|[->|[->|[->|[->| ->]]]]]]]; cbn [N.eqb Pos.eqb Z.of_N]; unfold sk_switch;
+    repeat (match goal with |- context [go_exec G call lf (StSwitch ?tag (([ExConst ?c], ?b) :: ?cs) ?d) (("wireType"%gname, GvInt TInt ?k) :: ?en)] =>
+              rewrite (switch_int G call lf tag TInt k c b cs d _ (Htag k) eq_refl) end; cbn [Z.eqb Pos.eqb]; cbv iota);
+    try rewrite (switch_dflt G call lf _ _ _ _ (Htag _)); unfold sw_finish, exec_blk; go.
+  - (* 0 *) unfold skip_varint_for at 1. rewrite exec_for. go.
+    pose proof (varint_loop call lf bs (Z.of_N depth) 0 (Z.of_N (u64 raw)) Hlen 10 lf 0%N 0%nat idx1 rest1
+                  ltac:(lia) ltac:(lia) eq_refl ltac:(lia) Hrest1 ltac:(lia)) as HV.
+    cbv zeta in HV. unfold skip_varint.
+    match goal with |- context [for_loop G call lf None ?p ?b lf ?en] =>
+      change (for_loop G call lf None p b lf en) with
+        (for_loop G call lf None sk_post (skip_guards ++ sk_vbody) lf (v_env bs (Z.of_N 0) 0 (Z.of_N (u64 raw)) idx1 (Z.of_N depth))) end.
+    destruct (skip_varint_aux 10 0 rest1) as [[n2 rest2]|] eqn:Es.
+    2:{ destruct HV as (e & en & -> & Hfp). go. exists e, en. split; [reflexivity|exact Hfp]. }
+    destruct HV as (sh2 & ->). unfold v_env, sk_env. go.
+    apply skip_varint_aux_consumes in Es. destruct Es as (pre2 & Hpre2 & Hn2 & Hpl2).
+    destruct (suffix_split bs rest1 pre2 rest2 idx1 ltac:(lia) Hrest1 Hpre2 ltac:(lia)) as (Hi2 & Hrest2 & Hi2r).
+    replace (idx1 + Z.of_nat n2) with (Z.of_nat (length bs) - Z.of_nat (length rest2)) by lia.
+    apply sk_epilogue.
+  - (* 1 *) rewrite norm_int, wrap64_id' by lia. apply sk_epilogue.
+  - (* 2 *) unfold skip_varint_for at 1. rewrite exec_for. go.
+    pose proof (length_loop call lf bs (Z.of_N depth) 2 (Z.of_N (u64 raw)) Hlen 10 lf 0%N 0%N 0%nat idx1 rest1
+                  ltac:(lia) ltac:(lia) eq_refl ltac:(lia) Hrest1 ltac:(lia)) as HL.
+    cbv zeta in HL.
+    match goal with |- context [for_loop G call lf None ?p ?b lf ?en] =>
+      change (for_loop G call lf None p b lf en) with
+        (for_loop G call lf None sk_post (skip_guards ++ skip_accumulate "length" TInt) lf
+           (l_env bs (Z.of_N 0) (s64 0) 2 (Z.of_N (u64 raw)) idx1 (Z.of_N depth))) end.
+    destruct (dec_varint_aux 10 0 0 0 rest1) as [[[raw2 n2] rest2]|] eqn:Ed2.
+    2:{ destruct HL as (e & en & -> & Hfp). go. exists e, en. split; [reflexivity|exact Hfp]. }
+    destruct HL as (sh2 & ->). unfold l_env, sk_env. go.
+    apply dec_varint_aux_consumes in Ed2. destruct Ed2 as (pre2 & Hpre2 & Hn2 & Hpl2).
+    destruct (suffix_split bs rest1 pre2 rest2 idx1 ltac:(lia) Hrest1 Hpre2 ltac:(lia)) as (Hi2 & Hrest2 & Hi2r).
+    destruct (s64 raw2 <? 0) eqn:Hneg; go.
+    + rewrite G_invalid. go. eexists. eexists. split; reflexivity.
+    + rewrite norm_int.
+      replace (idx1 + Z.of_nat n2 + s64 raw2) with (Z.of_nat (length bs) - Z.of_nat (length rest2) + s64 raw2) by lia.
+      apply sk_epilogue.
+  - (* 3 *) rewrite norm_int, wrap64_id' by lia. replace (Z.of_N depth + 1) with (Z.of_N (depth + 1)) by lia. apply sk_epilogue.
+  - (* 4 *) rewrite eqb_ofN_0. destruct (N.eqb_spec depth 0) as [Hd0|Hd0]; go.
+    + rewrite G_endgroup. go. eexists. eexists. split; reflexivity.
+    + rewrite norm_int, wrap64_id' by lia. replace (Z.of_N depth - 1) with (Z.of_N (depth - 1)) by lia. apply sk_epilogue.
+  - (* 5 *) rewrite norm_int, wrap64_id' by lia. apply sk_epilogue.
+  - (* 6 *) match goal with |- context [fmt_args ?s ?vs] => let v := eval vm_compute in (fmt_args s vs) in change (fmt_args s vs) with v end.
+    go. eexists. eexists. split; reflexivity.
+  - (* 7 *) match goal with |- context [fmt_args ?s ?vs] => let v := eval vm_compute in (fmt_args s vs) in change (fmt_args s vs) with v end.
+    go. eexists. eexists. split; reflexivity.
+Qed.
